@@ -380,7 +380,7 @@ View observe(const DD& d, const Ctx& c, long expectedN)
 }
 
 // clauses: probabilities, values, bounds (structure of the partition)
-bool auditStructure(const View& v, const Ctx& c, bool medianScaled)
+bool auditStructure(const View& v, const Ctx& c, bool medianScaled, bool boundsFromValues = false)
 {
   // recorded finding: rescaled medians can leave their class interval (by design of the median option)
   bool skipInterval = medianScaled && !g_forceAll && vrt::known("C09-median-rescaled-outside-interval");
@@ -403,7 +403,10 @@ bool auditStructure(const View& v, const Ctx& c, bool medianScaled)
     if (std::isnan(v.B[i])) bfin = false;
     if (i < v.n && !(v.B[i] <= v.B[i + 1])) ord = false;
   }
-  ok &= vrt::expect(ord && bfin, "bounds.ordered", c.cls + (v.n == 1 ? ":n1" : ""), [&] { return c.W("bounds (domain ends included) are not non-decreasing; " + viewStr(v)); });
+  // (invariant-mixed places bounds half-way between the invariant and the neighbouring nested values: with rescaled
+  //  medians outside their nested intervals the order of those bounds is a consequence of the recorded finding)
+  if (!(skipInterval && boundsFromValues))
+    ok &= vrt::expect(ord && bfin, "bounds.ordered", c.cls + (v.n == 1 ? ":n1" : ""), [&] { return c.W("bounds (domain ends included) are not non-decreasing; " + viewStr(v)); });
   if (!(ord && bfin && vfin)) return false;
   // every value inside its own interval; resolution = the tolerance comparator's precision times the
   // number of classes (duplicate separation moves a value by j*precision, j<=n)
@@ -862,7 +865,7 @@ bool auditInvMixed(const DD& d, Node& m, Ctx c, vrt::Rng& rng)
   View v = observe(d, c, expN);
   if (!v.ok) return true;
   vrt::cover(c.cls + (exact ? ":inv-is-a-nested-value" : near ? ":inv-near-a-nested-value" : m.inv < nc[0] ? ":inv-below" : m.inv > nc.back() ? ":inv-above" : ":inv-between"));
-  bool sOk = auditStructure(v, c, anyMedian(m));
+  bool sOk = auditStructure(v, c, anyMedian(m), true);
   if (!near)
   {
     vector<pair<double, double>> e;
